@@ -117,11 +117,13 @@ func init() {
 func init() {
 	g2lUnits = append(g2lUnits, &g2lUnit{
 		out: "FnZip", ns: "Zip", pkgDir: "zip",
-		imports:     []string{"ModVerif.Basic.GoRtUtf8", "ModVerif.Basic.GoRtPath", "ModVerif.Basic.GoRtZipIO"},
-		structNames: []string{"pathInfo", "FileInfo", "File", "FileError", "CheckedFiles"},
-		worldFns:    map[string]string{"Create": "ZipW", "Unzip": "FsW"},
+		imports:     []string{"ModVerif.Basic.GoRtUtf8", "ModVerif.Basic.GoRtPath", "ModVerif.Basic.GoRtZipIO", "ModVerif.Basic.GoRtWalk", "ModVerif.Basic.GoRtNote"},
+		structNames: []string{"pathInfo", "FileInfo", "File", "FileError", "CheckedFiles", "dirFile"},
+		walkCalls:   map[string]string{"filepath.Walk": "walkRoot"},
+		worldFns:    map[string]string{"Create": "ZipW", "Unzip": "FsW", "CreateFromDir": "ZipW"},
+		absCalls:    map[string]string{"os.ReadFile": "osReadFile", "os.Lstat": "osLstat", "os.Open": "osOpenRead"},
 		worldCalls: map[string]string{"zw.Create": "zwCreate", "Create:io.Copy": "zwWrite", "zw.Close": "zwClose",
-			"os.ReadDir": "osReadDir", "os.Open": "osOpen", "os.MkdirAll": "osMkdirAll", "os.OpenFile": "osOpenFile",
+			"os.ReadDir": "osReadDir", "Unzip:os.Open": "osOpen", "os.MkdirAll": "osMkdirAll", "os.OpenFile": "osOpenFile",
 			"zf.Open": "zfOpen:recv", "Unzip:io.Copy": "osCopy", "w.Close": "osClose:recv"},
 		foreignTypes: map[string]string{"zip.Reader": "ZReader", "zip.File": "ZEntry", "zip.Writer": "Unit", "os.File": "OsFile",
 			"io.LimitedReader": "LimitedReader", "module.Version": "ModVersion", "fs.DirEntry": "Unit"},
@@ -133,14 +135,16 @@ func init() {
 		},
 		ifaces:      map[string]string{"ReadCloser": "Bytes", "Writer": "Unit"},
 		ignoreCalls: map[string]bool{"Close": true},
-		fns:         []string{"isVendoredPackage", "strToFold", "collisionChecker.check", "checkFiles", "CheckedFiles.Err", "checkZip", "Create", "Unzip"},
+		fns:         []string{"isVendoredPackage", "strToFold", "collisionChecker.check", "checkFiles", "CheckedFiles.Err", "checkZip", "Create", "Unzip",
+			"CheckFiles", "dirFile.Path", "dirFile.Lstat", "dirFile.Open", "listFilesInDir", "CheckDir", "CreateFromDir"},
 		inout:       map[string]string{"collisionChecker.check": "cc"},
 		absFuncs: map[string]string{"version.Compare": "versionCompare", "unicode.SimpleFold": "simpleFold", "strings.EqualFold": "equalFold",
 			"module.CheckFilePath": "checkFilePath", "module.CanonicalVersion": "canonicalVersion", "module.Check": "moduleCheck", "strings.ToLower": "toLower", "version.Lang": "versionLang", "parseGoVers": "parseGoVers"},
 		absSigs: map[string]string{"versionCompare": "Bytes → Bytes → Int", "simpleFold": "Int → Int", "equalFold": "Bytes → Bytes → Bool",
-			"checkFilePath": "Bytes → Option String", "canonicalVersion": "Bytes → Bytes", "moduleCheck": "Bytes → Bytes → Option String", "toLower": "Bytes → Bytes", "versionLang": "Bytes → Bytes", "parseGoVers": "Bytes → Bytes → Bytes"},
+			"checkFilePath": "Bytes → Option String", "canonicalVersion": "Bytes → Bytes", "moduleCheck": "Bytes → Bytes → Option String", "walkRoot": "Bytes → FsTree FileInfo", "osReadFile": "Bytes → (Bytes × Option String)",
+			"osLstat": "Bytes → (FileInfo × Option String)", "osOpenRead": "Bytes → (Bytes × Option String)", "toLower": "Bytes → Bytes", "versionLang": "Bytes → Bytes", "parseGoVers": "Bytes → Bytes → Bytes"},
 		stdCalls: map[string]stdFn{"zip.NewWriter": {"zipNewWriter", false}, "zip.NewReader": {"zipNewReader", false}, "f.Stat": {"osStat", false},
-			"filepath.Join": {"fpJoin", false}, "filepath.Dir": {"pathDir", false}, "path.Base": {"pathBase", false},
+			"filepath.Join": {"fpJoin", false}, "filepath.Rel": {"fpRel", false}, "filepath.ToSlash": {"id", false}, "filepath.Base": {"pathBase", false}, "filepath.Dir": {"pathDir", false}, "path.Base": {"pathBase", false},
 			"path.Dir": {"pathDir", false}, "path.Split": {"pathSplit", false}, "path.Clean": {"pathClean", false}, "path.IsAbs": {"pathIsAbs", false},
 			"io.ReadAll": {"readAll", false}, "info.Mode().IsRegular": {"modeIsRegular", false}},
 	})
